@@ -55,15 +55,20 @@ def draw_axis (rng, nmax):
 # end def draw_axis
 
 _model = {}
-def model ():
-    if 'm' not in _model:
+ENV_ARGV = dict (free = [], ideal = ['--medium=0,0,0'], real = ['--medium=13,0.005,0'])
+def model (env = 'free'):
+    """ the antenna the tables are asked of: in free space, or (lifted) over ideal or real ground - the tables
+        hold the requested points whatever the environment, also points in or below the ground plane """
+    if env not in _model:
         MM = common.repo ()
-        w = [MM.Wire (6, 0, 0, -2.5, 0, 0.3, 2.5, 0.002)]
-        m = MM.Mininec (28.0, w)
+        z0 = -2.5 if env == 'free' else 1.0
+        w = [MM.Wire (6, 0, 0, z0, 0, 0.3, z0 + 5.0, 0.002)]
+        md = None if env == 'free' else [MM.ideal_ground if env == 'ideal' else MM.Medium (13, 0.005, 0)]
+        m = MM.Mininec (28.0, w, media = md)
         m.register_source (MM.Excitation (1+0j), 2)
         m.compute ()
-        _model ['m'] = m
-    return _model ['m']
+        _model [env] = m
+    return _model [env]
 # end def model
 
 def make (spec0):
@@ -84,7 +89,8 @@ def make (spec0):
         # totals that are multiples of one hundred, computed for real
         cnt = [(100, 1, 1), (1, 100, 1), (1, 1, 100), (10, 10, 1), (10, 5, 2), (4, 5, 5), (25, 4, 1), (5, 5, 8), (2, 50, 1), (50, 2, 2)] [int (rng.integers (0, 10))]
         ax  = [(a [0], a [1] if a [1] != 0 else 0.1, n) for a, n in zip (ax, cnt)]
-    return dict (route = route, kind = kind, ax = [list (a) for a in ax])
+    env = str (np.random.default_rng ([spec0 ['seed'], 161, spec0 ['i']]).choice (['free', 'free', 'ideal', 'real']))
+    return dict (route = route, kind = kind, ax = [list (a) for a in ax], env = env)
 # end def make
 
 def tok_close (tok, want):
@@ -100,7 +106,7 @@ def check (spec0):
     mon  = {}
     before = dict (instrument.EVALS)
     if spec ['route'] == 'api':
-        m = model ()
+        m = model (spec.get ('env', 'free'))
         if spec ['kind'] == 'far':
             zen = MM.Angle (ax [0][0], ax [0][1], ax [0][2])
             azi = MM.Angle (ax [1][0], ax [1][1], ax [1][2])
@@ -146,7 +152,7 @@ def check (spec0):
                     del m.near_field_iter
                     del m._pmv_stub
     else:
-        argv = ['-f', '28', '-w', '6,0,0,-2.5,0,0.3,2.5,0.002', '--excitation-pulse', '3']
+        argv = ['-f', '28', '-w', '6,0,0,-2.5,0,0.3,2.5,0.002' if spec.get ('env', 'free') == 'free' else '6,0,0,1,0,0.3,6,0.002', '--excitation-pulse', '3'] + ENV_ARGV [spec.get ('env', 'free')]
         if spec ['kind'] == 'far':
             argv += ['--theta=%r,%r,%d' % tuple (ax [0]), '--phi=%r,%r,%d' % tuple (ax [1])]
             if (ax [0][2] + ax [1][2]) % 2:
@@ -201,7 +207,7 @@ def check (spec0):
     if not any (k.startswith ('contract:') for k in mon):
         return dict (status = 'inconclusive', reason = 'grid contract not evaluated')
     nontrivial = any (a [2] > 1 and sclass (a [1]) in ('+i', '-i', '-e') for a in ax)
-    sig = '|'.join ([spec ['route'], spec ['kind']] + [klass (a [2]) + sclass (a [1]) for a in ax])
+    sig = '|'.join ([spec ['route'], spec ['kind'], spec.get ('env', 'free')] + [klass (a [2]) + sclass (a [1]) for a in ax])
     return dict ( status = 'violation' if viol else 'held', sig = sig, nontrivial = nontrivial
                 , monitors = mon, violations = viol)
 # end def check
